@@ -96,7 +96,7 @@ class SolveAnalysis:
             odata2 = None
         params, state, last = opt.fields['params'], opt.fields['opt_state'], opt.fields['last_non_nan_params']
         total, terms = self.loss(params, batch)
-        grads = Sym('grad', self.loss._sym(), 0, (fz(params), fz(batch)))
+        grads = Sym('grad', fz(total), fz(params))
         updates, state2 = self.opt.update(grads, state, params)
         from ..extern import apply_updates_model
         params2 = apply_updates_model(params, updates)
